@@ -60,3 +60,11 @@ impl LuaIndex for LuaDeclIndex {
         self.decl_trees.clear();
     }
 }
+
+#[cfg(feature = "verif-hooks")]
+impl LuaDeclIndex {
+    /// verif hook H1: entry counts of every map of this index
+    pub fn verif_sizes(&self, out: &mut Vec<(String, usize)>) {
+        out.push(("decl.decl_trees".into(), self.decl_trees.len()));
+    }
+}
